@@ -320,6 +320,9 @@ type c16Layout struct {
 	Style     importStyle  `json:"style"`
 	Names     []string     `json:"co_file_base_names"` // base names of the co files (may contain the marker `_co` or dots inside)
 	TestName  string       `json:"co_test_file_base_name"`
+	// ExtEta: the external test package's closure over a function of the package under test has the eta-reducible form
+	// (known finding cogen-external-test-eta-not-idempotent; false = the closure adds 0 and is not reducible)
+	ExtEta bool `json:"external_test_closure_is_eta_reducible,omitempty"`
 }
 
 func snapshot(dir string) map[string]string {
@@ -340,6 +343,10 @@ func snapshot(dir string) map[string]string {
 	})
 	return out
 }
+
+const c16KnownWhat = "an external test package (package p_test) whose co test file contains a closure of the eta-reducible form over a function of the package under test " +
+	"(`f := func() int { return pkg.EmbedLen() }`) is not idempotent under cogen: the first run leaves the closure as written (the optimise stage cannot resolve pkg.EmbedLen before the package's own " +
+	"derived files exist), the second run rewrites it to `f := pkg.EmbedLen`, so ext_test.go changes on the second run (rewriter/compile.go GoGen stage 2 loads the temporary directory while the real package is still incomplete)"
 
 const genHeader = "//go:build !co\n\n// Code generated by github.com/goghcrow/go-co DO NOT EDIT.\n"
 
@@ -464,6 +471,20 @@ func (rs *runState) runC16Layout(idx int, lay c16Layout) *violationT {
 	files[pkgDir+"embed_co.go"] = coHeader("package " + pkgName + "\n\nimport (\n\t_ \"embed\"\n\n\t. \"github.com/goghcrow/go-co\"\n)\n\n//go:embed embed_data.txt\nvar EmbeddedData string\n\n// EmbedGen has a doc comment.\n//\n//go:noinline\nfunc EmbedGen(n int) Iter[string] {\n\tf := func() Iter[string] {\n\t\tYield(EmbeddedData)\n\t\treturn nil\n\t}\n\tfor i := 0; i < n; i++ {\n\t\tYieldFrom(f())\n\t}\n\treturn nil\n}\n")
 	files[pkgDir+"embed_test.go"] = "package " + pkgName + "\n\nimport \"testing\"\n\nfunc TestEmbeddedData(t *testing.T) {\n\tif EmbeddedData != \"embedded payload\\n\" {\n\t\tt.Fatalf(\"EmbeddedData = %q: the go:embed directive of a bystander declaration was lost\", EmbeddedData)\n\t}\n\tn := 0\n\tfor it := EmbedGen(2); it.MoveNext(); n++ {\n\t\tif it.Current() != EmbeddedData {\n\t\t\tt.Fatalf(\"EmbedGen yielded %q\", it.Current())\n\t\t}\n\t}\n\tif n != 2 {\n\t\tt.Fatalf(\"EmbedGen yielded %d values\", n)\n\t}\n}\n"
 	expected[pkgDir+"embed.go"] = true
+	// an external test package (package <pkg>_test) with a generator of its own and a closure over a function of the
+	// package under test
+	importPath := mod
+	if pkgDir != "" {
+		importPath = mod + "/" + strings.TrimSuffix(pkgDir, "/")
+	}
+	call := "return pkg.EmbedLen() + 0"
+	if lay.ExtEta {
+		call = "return pkg.EmbedLen()"
+	}
+	// (EmbedLen lives in a co file: without the tag it only exists once embed.go has been derived)
+	files[pkgDir+"embed_co.go"] += "\nfunc EmbedLen() int { return 17 }\n"
+	files[pkgDir+"ext_co_test.go"] = coHeader("package " + pkgName + "_test\n\nimport (\n\t\"testing\"\n\n\t. \"github.com/goghcrow/go-co\"\n\tpkg \"" + importPath + "\"\n)\n\nfunc extGen(n int) Iter[int] {\n\tf := func() int { " + call + " }\n\tfor i := 0; i < n; i++ {\n\t\tYield(f() + i)\n\t}\n\treturn nil\n}\n\nfunc TestExternal(t *testing.T) {\n\tsum := 0\n\tfor v := range extGen(3) {\n\t\tsum += v\n\t}\n\tif sum != 3*17+3 {\n\t\tt.Fatalf(\"sum = %d\", sum)\n\t}\n}\n")
+	expected[pkgDir+"ext_test.go"] = true
 	subDir := ""
 	if len(lay.SubPkg) > 0 {
 		subDir = pkgDir + "sub/"
@@ -650,6 +671,26 @@ func init() {
 			"lives in the layout as an ordinary file and the generated test asserts compiled == reference for every input; oracle: directory snapshot before/after (created set == exactly the derived files, nothing modified/left behind, " +
 			"no <dir>_tmp), '!co' header, go build / go test without the tag pass, go build -tags co passes, a second run leaves every byte identical; then one co file is replaced by a much shorter version and the tool runs again over the existing longer derived file: the result must equal a fresh generation and no other file may change; " +
 			"non-trivial = >= 2 co files and a sibling type, test file or sub-package; distinct by hash(layout)")
+		// known finding: re-executed on a minimal layout; the generated layouts leave the shape out by construction
+		extEta := !knownExclusions()["cogen-external-test-eta-not-idempotent"]
+		if !extEta {
+			tiny := &Program{Name: "P9k", Profile: "tiny"}
+			tiny.Decls = []*Decl{{Kind: "gen", Name: "P9kG", Params: []Param{{"a", "int"}}, Elem: "int", Body: []*Stmt{yS(v("a"))}}}
+			tiny.Entries = []*Entry{{Name: "P9kG", Kind: "drive", Call: "$PP9kG($0)", Elem: "int", Inputs: [][]int{{1}}}}
+			tinyT := &Program{Name: "P9t", Profile: "tiny"}
+			tinyT.Decls = []*Decl{{Kind: "gen", Name: "P9tG", Params: []Param{{"a", "int"}}, Elem: "int", Body: []*Stmt{yS(v("a"))}}}
+			tinyT.Entries = []*Entry{{Name: "P9tG", Kind: "drive", Call: "$PP9tG($0)", Elem: "int", Inputs: [][]int{{1}}}}
+			kl := c16Layout{Style: importStyles[0], CoFiles: [][]*Program{{tiny}}, Names: []string{""}, TestFile: []*Program{tinyT}, ExtEta: true}
+			if v := rs.runC16Layout(9999, kl); v != nil && v.Signature == "not-idempotent" && strings.Contains(v.What, "ext_test.go") {
+				rs.known = append(rs.known, "KNOWN-FINDING: property=C16 cogen-external-test-eta-not-idempotent: "+c16KnownWhat)
+			} else if v != nil {
+				v.Extra = mergeExtra(v.Extra, map[string]any{"layout": kl})
+				rs.addViolation(v)
+			} else {
+				fmt.Println("note: known finding cogen-external-test-eta-not-idempotent no longer reproduces on this tree")
+			}
+			rs.extra["known_findings_excluded_by_construction"] = len(rs.known)
+		}
 		n := rs.vol(10, 200)
 		var lays []c16Layout
 		k := 0
@@ -687,6 +728,7 @@ func init() {
 			lay.TestFile = mk(1 + rapidInt(t, 0, 1, "testgen")) // the test file has generators of its own
 			lay.Unused = []string{"", "blank-import", "no-import"}[rapidInt(t, 0, 2, "unused")]
 			lay.Sibling = rapidInt(t, 0, 1, "sibling") == 1
+			lay.ExtEta = extEta
 			if rapidInt(t, 0, 2, "sub") == 0 {
 				lay.SubPkg = mk(2)
 			}
